@@ -6,6 +6,7 @@ use vaporetto::{CharacterBoundary, Sentence};
 mod c01;
 mod c02;
 mod c03;
+mod c04;
 mod gen;
 mod fmt;
 mod c05;
@@ -32,6 +33,8 @@ fn main() {
         ("c02", "replay") => c02::replay(&args[3]),
         ("c03", "search") => c03::search(),
         ("c03", "replay") => c03::replay(&args[3]),
+        ("c04", "search") => c04::search(),
+        ("c04", "replay") => c04::replay(&args[3]),
         ("c16", "search") => c16::search(),
         ("c16", "replay") => c16::replay(&args[3]),
         ("c19", "search") => c19::search(),
